@@ -96,3 +96,30 @@ Theorem c05_fuzzy_sound : forall ps key T, Forall is_bytes ps -> is_bytes key ->
   exists l, fuzzy_search T key = Ok l /\ forall y, In y l -> In y ps /\ y <> [].
 Proof. exact fuzzy_search_sound. Qed.
 Print Assumptions c05_fuzzy_sound.
+
+(* ---------------------------------------------------------------------------------------------------------------
+   The property as written ("occurs in the text as a substring", "start with k"): for patterns / keys that are valid
+   UTF-8 the rune-aligned reading used above is the plain byte-wise one, for ARBITRARY byte-string texts / patterns. *)
+From V Require Import Lib.Utf8 Proofs.TrieValid.
+
+(* every byte-for-byte occurrence of a well-formed non-empty pattern starts and ends on rune boundaries of the text *)
+Theorem c05_valid_pattern_occurrences_are_aligned : forall p text s, is_bytes p -> valid_toks p -> p <> [] ->
+  occ_at false p text s = true -> occ_at true p text s = true.
+Proof. exact valid_occ_aligned. Qed.
+Print Assumptions c05_valid_pattern_occurrences_are_aligned.
+
+Theorem c05_valid_utf8_is_valid_toks : forall p, is_bytes p -> valid_utf8 p = true -> valid_toks p.
+Proof. exact valid_utf8_toks. Qed.
+Print Assumptions c05_valid_utf8_is_valid_toks.
+
+(* the executable specification: plain and aligned occurrence lists are the same list for well-formed pattern sets;
+   plain and aligned prefix sets are the same for a well-formed key *)
+Theorem c05_plain_reading_for_valid_patterns : forall ps text, Forall is_bytes ps -> forallb valid_utf8 ps = true ->
+  occs false ps text = occs true ps text.
+Proof. exact occs_valid_eq. Qed.
+Print Assumptions c05_plain_reading_for_valid_patterns.
+
+Theorem c05_plain_reading_for_valid_key : forall ps key, is_bytes key -> valid_utf8 key = true ->
+  spec_prefix false ps key = spec_prefix true ps key.
+Proof. exact spec_prefix_valid_eq. Qed.
+Print Assumptions c05_plain_reading_for_valid_key.
